@@ -1,10 +1,14 @@
 (* C07 - the SQL generated for a LogQL log query selects exactly the matching lines.
-   Statements only; proofs in proofs/SqlEvalProofs.v, proofs/LogqlSemProofs.v, proofs/LogqlSem2Base.v and proofs/LogqlSem2Proofs.v.
+   Statements only; proofs in proofs/SqlEvalProofs.v, proofs/LogqlSemProofs.v, proofs/LogqlRegexpProofs.v, proofs/LogqlSem2Base.v
+   and proofs/LogqlSem2Proofs.v.
    Relative to the ClickHouse-subset semantics model/SqlEval.v (trusted) and the planner model
    model/LogqlPlan.v (tied to the Go planners byte for byte by checks/sqltext.py). *)
 From Coq Require Import List ZArith NArith QArith String Ascii Bool Permutation.
-From Qryn Require Import lib.Strs model.Sql model.Logql model.LogqlPlan model.SqlEval model.LogqlSem model.LogqlSemCheck
-  proofs.SqlEvalProofs proofs.LogqlSemProofs proofs.LogqlSemCheckProofs proofs.LogqlSem2Base proofs.LogqlSem2Proofs.
+From Qryn Require Import lib.Strs model.Sql model.Logql model.LogqlRegexp model.LogqlPlan model.SqlEval model.LogqlSem model.LogqlSemCheck
+  proofs.SqlEvalProofs proofs.LogqlSemProofs proofs.LogqlSemCheckProofs proofs.LogqlRegexpProofs proofs.LogqlSem2Base proofs.LogqlSem2Proofs.
+(* RG : ReGroups is the extraction oracle of the regexp stage (model/SqlEval.v); it is an implicit (type class) argument of
+   the evaluator and of the reference semantics, universally quantified in every theorem below that names it; a statement
+   that does not name it is about the default instance no_groups (no regexp stage can be evaluated). *)
 Import ListNotations.
 Open Scope string_scope.
 
@@ -24,7 +28,7 @@ Print Assumptions logql_log_sound_complete_refuted.
    (a permutation of all matching lines without limit; a top-L set in the query direction with limit L),
    each line carrying its own stream's labels. Line filters and label filters are covered in full. *)
 Theorem logql_log_partial :
-  forall re_match parse_float json_get hash_labels (tie : forall A : Type, list A -> list A),
+  forall (RG : ReGroups) re_match parse_float json_get hash_labels (tie : forall A : Type, list A -> list A),
     (forall A (l : list A), Permutation (tie A l) l) ->
     forall q c d, in_fragment q = true -> oracle_ok re_match parse_float q -> ctx_ok c = true -> db_ok c d ->
     width_guard q = true -> absent_guard re_match q d ->
@@ -66,14 +70,14 @@ Print Assumptions limit_topk.
 (* the fp_sel CTE of StreamSelectPlanner, evaluated by SqlEval, returns exactly the fingerprints for
    which every matcher is witnessed by a label-index row inside the date / type bounds *)
 Theorem fp_sel_correct :
-  forall re_match parse_float json_get hash_labels (tie : forall A : Type, list A -> list A) c d, ctx_ok c = true ->
+  forall (RG : ReGroups) re_match parse_float json_get hash_labels (tie : forall A : Type, list A -> list A) c d, ctx_ok c = true ->
   forall ms, ms <> [] -> (List.length ms <= 64)%nat ->
     esel re_match parse_float json_get hash_labels tie (to_sqldb c d) (stream_select c ms) = Some (map fp_row (fp_sel_list re_match c d ms))
     /\ forall fp, (List.In fp (fp_sel_list re_match c d ms) <->
          forall m, List.In m ms -> exists g, List.In g (d_gin d) /\ g_fp g = fp /\ (from_day (c_from_ns c) <= g_day g)%Z
                                         /\ type_in c (g_type g) = true /\ clause_b re_match m (g_key g) (g_val g) = true).
 Proof.
-  intros re_match parse_float json_get hash_labels tie c d Hctx ms Hne Hlen. split.
+  intros RG re_match parse_float json_get hash_labels tie c d Hctx ms Hne Hlen. split.
   - now apply es_stream_select.
   - intros fp. now apply fp_sel_list_in.
 Qed.
@@ -83,13 +87,13 @@ Print Assumptions fp_sel_correct.
    means the LogQL line filter, for all four operators, on every row that carries the line text under the
    names `samples.string` and `string` *)
 Theorem line_filter_correct :
-  forall re_match parse_float json_get hash_labels (tie : forall A : Type, list A -> list A) c d op val re_lit r g line,
+  forall (RG : ReGroups) re_match parse_float json_get hash_labels (tie : forall A : Type, list A -> list A) c d op val re_lit r g line,
     lookup "samples.string" r = Some (VStr line) /\ lookup "string" r = Some (VStr line) ->
     stage_oracle_ok re_match parse_float (PLineFilter op val re_lit) ->
     ev re_match parse_float json_get hash_labels tie (to_sqldb c d) (line_filter_clause op val re_lit) (r :: g)
     = Some (vbool (line_ok re_match line op val)).
 Proof.
-  intros re_match parse_float json_get hash_labels tie c d op val re_lit r g line Hr H.
+  intros RG re_match parse_float json_get hash_labels tie c d op val re_lit r g line Hr H.
   exact (ev_lft_clause re_match parse_float json_get hash_labels tie c d (op, val, re_lit) r g line Hr H).
 Qed.
 Print Assumptions line_filter_correct.
@@ -108,9 +112,9 @@ Print Assumptions logql_log_partial_guards_met.
 
 (* the boolean oracle that the check runs on the rows of the implementation's SQL decides the reference
    semantics exactly (it neither accepts a wrong answer nor rejects a right one) *)
-Theorem spec_oracle_decides : forall re_match parse_float q c d res,
+Theorem spec_oracle_decides : forall (RG : ReGroups) re_match parse_float q c d res,
   sem_b re_match parse_float q c d res = true <-> logql_sem re_match parse_float q c d res.
-Proof. exact sem_b_iff. Qed.
+Proof. exact @sem_b_iff. Qed.
 Print Assumptions spec_oracle_decides.
 
 (* a selector with nine matchers selects its series (it returned nothing before fix 052673d) *)
@@ -122,25 +126,28 @@ Proof. exact LogqlSemProofs.nine_matchers_select. Qed.
 Print Assumptions nine_matchers_select.
 
 (* ... and the same for the whole SQL-planned pipeline (json parameters, drop, filters in any order) *)
-Theorem spec_oracle2_decides : forall re_match parse_float json_get hash_labels q c d res,
+Theorem spec_oracle2_decides : forall (RG : ReGroups) re_match parse_float json_get hash_labels q c d res,
   sem2_b re_match parse_float json_get hash_labels q c d res = true
   <-> logql_sem2 re_match parse_float json_get hash_labels q c d res.
-Proof. exact sem2_b_iff. Qed.
+Proof. exact @sem2_b_iff. Qed.
 Print Assumptions spec_oracle2_decides.
 
-(* The whole SQL-planned pipeline: for every regex / float / json-extraction / label-hash oracle, every tie-breaking of
-   ClickHouse, every query whose pipeline is made of line filters, label filters (string and numeric, and/or/nesting), json
-   stages with parameters and drop stages IN ANY ORDER (in_fragment2: at least one json or drop), every context and every
+(* The whole SQL-planned pipeline: for every regex / float / json-extraction / regexp-extraction / label-hash oracle, every
+   tie-breaking of ClickHouse, every query whose pipeline is made of line filters, label filters (string and numeric,
+   and/or/nesting), json stages with parameters, regexp stages (an expression the planner's grammar accepts, named groups
+   with distinct names; oracle_ok: the expression sent has as many capture groups as the text opens) and drop stages IN ANY
+   ORDER (in_fragment2: at least one json, regexp or drop), every context and every
    database satisfying db_ok, under the same two guards as logql_log_partial (no matcher accepting "" meets a series lacking
    its label; at most 63 matchers): the planners produce a SELECT, it evaluates, and its rows are exactly the reference
    answer logql_sem2 - every line travels through the stages with its current label map and fingerprint (run_stages: a json
-   stage writes the extracted values over the labels and re-fingerprints, a drop removes labels, a filter reads the CURRENT
+   stage writes the extracted values over the labels and re-fingerprints, a regexp stage writes the non-empty texts of its
+   NAMED capture groups - group i is the i-th opening parenthesis of the expression -, a drop removes labels, a filter reads the CURRENT
    labels / the line text), restricted to the window and the queried type, a permutation of all surviving lines without
    limit, a top-L set in the query direction with limit L, each line with its current labels.
    Proved by induction over the pipeline (proofs/LogqlSem2Proofs.v: spl_rest) with an invariant relating the open select of
    the planner built for a prefix to the live states of run_stages on that prefix (proofs/LogqlSem2Base.v: sinv). *)
 Theorem logql_log_partial_parsers :
-  forall re_match parse_float json_get hash_labels (tie : forall A : Type, list A -> list A),
+  forall (RG : ReGroups) re_match parse_float json_get hash_labels (tie : forall A : Type, list A -> list A),
     (forall A (l : list A), Permutation (tie A l) l) ->
     forall q c d, in_fragment2 q = true -> oracle_ok re_match parse_float q -> ctx_ok c = true -> db_ok c d ->
     width_guard q = true -> absent_guard re_match q d ->
@@ -161,3 +168,26 @@ Theorem logql_log_partial_parsers_guards_met :
      = Some [Some {| o_fp := 102; o_labels := [("lvl", "info"); ("m", "ok")]; o_line := ex2_line; o_ts := 1700000000000000005 |}].
 Proof. exact partial_parsers_guards_met. Qed.
 Print Assumptions logql_log_partial_parsers_guards_met.
+
+(* the regexp stage: for every expression the planner accepts, the expression it sends is the text with every `(?P<name>`
+   replaced by `(`, and the label names it pairs with the capture groups (regexAST.collectGroupNames, transcribed) are the
+   names written in the groups IN THE ORDER OF THEIR OPENING PARENTHESES - the numbering of RE2 and of
+   extractAllGroupsHorizontal - also when a group is nested inside a named group *)
+Theorem regexp_names_by_opening_parenthesis : forall re sent names, re_plan re = Some (sent, names) ->
+  exists ts, lex_re re = Some ts /\ sent = tok_sent ts /\ names = tok_names ts.
+Proof. exact re_plan_by_opening_parenthesis. Qed.
+Print Assumptions regexp_names_by_opening_parenthesis.
+
+(* the hypotheses of logql_log_partial_parsers are met by a query with a regexp stage:
+   | regexp "(?P<ip>(?P<n>\d+)\.\d+) (?P<verb>\w+)" | n="10" | drop ip  over a matching and a non-matching line; the SELECT the
+   planners build evaluates (under an oracle that knows the groups of that one expression) to the matching line with the
+   labels n and verb added, ip dropped, and the fingerprint of the drop stage *)
+Theorem logql_log_partial_regexp_guards_met :
+  in_fragment2 ex3_query = true /\ oracle_ok (RG := ex3_groups) no_re no_float ex3_query /\ ctx_ok ex_ctx = true /\ db_ok ex_ctx ex3_db
+  /\ width_guard ex3_query = true /\ absent_guard no_re ex3_query ex3_db
+  /\ match log_select ex3_query ex_ctx with
+     | Some sel => option_map (map row_out) (eval (RG := ex3_groups) no_re no_float ex2_json ex2_hash LogqlSemProofs.tie_id (to_sqldb ex_ctx ex3_db) sel)
+     | None => None end
+     = Some [Some {| o_fp := 103; o_labels := [("b", "1"); ("n", "10"); ("verb", "get")]; o_line := ex3_line; o_ts := 1700000000000000005 |}].
+Proof. exact partial_regexp_guards_met. Qed.
+Print Assumptions logql_log_partial_regexp_guards_met.
